@@ -98,7 +98,9 @@ def op_strategy(queries):
     if queries:
         q = st.tuples(st.just('query'), CL, st.integers(0, len(QUERY_KINDS) - 1), SCRIPT,
                       st.integers(0, 12))
-        ops += [q, q, q,
+        qa = st.tuples(st.just('query_at'), st.integers(1, 12), CL,
+                       st.integers(0, len(QUERY_KINDS) - 1), SCRIPT, st.integers(0, 12))
+        ops += [q, q, q, qa, qa, qa,
                 st.tuples(st.just('query_in_reorg'), CL, SCRIPT, st.integers(0, 2))]
     return st.one_of(*ops).map(list)
 
@@ -464,6 +466,8 @@ class SystemMachine:
             await self.op_query(op)
         elif kind == 'query_in_reorg':
             await self.op_query_in_reorg(op)
+        elif kind == 'query_at':
+            await self.op_query_at(op)
         else:
             raise AssertionError(op)
 
@@ -471,6 +475,9 @@ class SystemMachine:
         pass
 
     async def op_query_in_reorg(self, op):
+        pass
+
+    async def op_query_at(self, op):
         pass
 
 
